@@ -59,7 +59,7 @@ package core
 //@   requires a != nil ==> a.F != nil
 //@   modifies[C06,C12;profile=pure] nothing
 //@   modifies[;profile=any] bs
-//@   ensures[C07] nonnil: exe != nil && wfExe(exe)
+//@   ensures nonnil: exe != nil && wfExe(exe)
 //@   ensures own: ownExe(exe)
 //@   ensures[C18] perm: exe.Bs != nil ==> permKept(bs, exe.Bs)
 //@   ensures noalias: exe.Bs == nil || exe.Bs == bs || fresh(exe.Bs)
@@ -67,8 +67,9 @@ package core
 //@   ensures[C08] emits0: a != nil && lastret(core.ActionFunc, exe) == nil ==> len(exe.Emitted) == 0
 //@   ensures[C08] emits1: a != nil && lastret(core.ActionFunc, exe) != nil ==> exe == lastret(core.ActionFunc, exe)
 //@   ensures[C08] noemit: a == nil ==> len(exe.Emitted) == 0
-//@   ensures[C07] sameerr: a != nil ==> err == lastret(core.ActionFunc, err)
+//@   ensures sameerr: a != nil ==> err == lastret(core.ActionFunc, err)
 //@   loop 0 modifies permanent
+//@   loop 0 invariant onlybs: forall k string :: (k in permanent) ==> (k in bs) && permanent[k] == bs[k]
 //@   loop 0 invariant[C18] collected: forall k string :: seen(0)[k] && hasSuffix(k, "!") ==> (k in permanent) && permanent[k] == bs[k]
 //@   loop 1 modifies exe.Bs
 //@   loop 1 invariant[C18] restored: forall k string :: seen(1)[k] ==> (k in exe.Bs) && exe.Bs[k] == permanent[k]
@@ -101,31 +102,31 @@ package core
 //@   requires b != nil
 //@   modifies[C06,C12;profile=pure] nothing
 //@   modifies[;profile=any] bs
-//@   ensures[C07] traces: ts != nil && fresh(ts)
-//@   ensures[C04] errnil: err != nil ==> st == nil
-//@   ensures[C04] state: st != nil ==> fresh(st) && st.Bs != nil && st.NodeName == targetOf(b, st.Bs)
+//@   ensures traces: ts != nil && fresh(ts)
+//@   ensures errnil: err != nil ==> st == nil
+//@   ensures state: st != nil ==> fresh(st) && st.Bs != nil && st.NodeName == targetOf(b, st.Bs)
 //@   ensures[C04] plain: b.Pattern == nil && b.Guard == nil ==> err == nil && (bs == nil ? st == nil : st != nil && st.Bs == bs)
 //@   ensures[C04] noguardcall: b.Guard == nil ==> ncalls(core.Action.Exec) == old(ncalls(core.Action.Exec))
 //@   ensures[C18;profile=pure] perm: st != nil ==> permKept(bs, st.Bs)
-//@   ensures[C06,C12;profile=pure] noalias: st != nil ==> st.Bs == bs || fresh(st.Bs)
+//@   ensures[;profile=pure] noalias: st != nil ==> st.Bs == bs || fresh(st.Bs)
 //@   loop 0 invariant fresh(ts) && fresh(ts.Messages)
-//@   loop 0 invariant[C18;profile=pure] cands: forall j int :: rangeindex < j && j < len(bss) ==> permKept(bs, bss[j])
+//@   loop 0 invariant[C18;profile=pure] cands: forall j int :: rangeindex < j && j < len(bss) ==> permKept(old(bs), bss[j])
 
 //@ func (*Branches).consider returns st, ts, consumed, err
 //@   safety C07
 //@   requires wfBranches(b)
 //@   modifies[C06,C12;profile=pure] nothing
 //@   modifies[;profile=any] bs
-//@   ensures[C07] traces: ts != nil && fresh(ts)
+//@   ensures traces: ts != nil && fresh(ts)
 //@   ensures[C04] nilb: b == nil ==> st == nil && !consumed && err == nil
 //@   ensures[C04] consume: b != nil ==> consumed == (b.Type == "message")
 //@   ensures[C04] nomsg: b != nil && b.Type == "message" && pending == nil ==> st == nil && err == nil
-//@   ensures[C04] errnil: err != nil ==> st == nil
-//@   ensures[C04] state: st != nil ==> fresh(st) && st.Bs != nil
+//@   ensures errnil: err != nil ==> st == nil
+//@   ensures state: st != nil ==> fresh(st) && st.Bs != nil
 //@   ensures[C04] first: b != nil && 0 < len(b.Branches) && b.Branches[0].Pattern == nil && b.Branches[0].Guard == nil && bs != nil && (b.Type == "message" ==> pending != nil)
 //@                        ==> err == nil && st != nil && st.Bs == bs && st.NodeName == targetOf(b.Branches[0], bs)
 //@   ensures[C18;profile=pure] perm: st != nil ==> permKept(bs, st.Bs)
-//@   ensures[C06,C12;profile=pure] noalias: st != nil ==> st.Bs == bs || fresh(st.Bs)
+//@   ensures[;profile=pure] noalias: st != nil ==> st.Bs == bs || fresh(st.Bs)
 //@   loop 0 invariant fresh(ts) && fresh(ts.Messages)
 //@   loop 0 invariant[C04] order: rangeindex >= 0 ==> !(b.Branches[0].Pattern == nil && b.Branches[0].Guard == nil && bs != nil)
 
@@ -137,8 +138,8 @@ package core
 //@   requires s != nil && st != nil && wfSpec(s)
 //@   modifies[C06,C12;profile=pure] nothing
 //@   modifies[;profile=any] st.Bs
-//@   ensures[C07] total: stride != nil || err != nil
-//@   ensures[C07] wf: stride != nil ==> fresh(stride) && stride.Events != nil && stride.Events.Traces != nil && stride.From != nil
+//@   ensures total: stride != nil || err != nil
+//@   ensures wf: stride != nil ==> fresh(stride) && stride.Events != nil && stride.Events.Traces != nil && stride.From != nil
 //@   ensures[C04] notcompiled: !s.compiled ==> stride == nil && err != nil
 //@   ensures[C04] unknown: s.compiled && !(st.NodeName in s.Nodes) ==> stride == nil && err != nil
 //@   ensures[C04] badbranching: s.compiled && (st.NodeName in s.Nodes) && nodeOf(s, st).Action != nil && msgBranching(nodeOf(s, st)) ==> stride == nil && err != nil
@@ -146,9 +147,9 @@ package core
 //@                        ==> stride != nil && ncalls(core.Action.Exec) == old(ncalls(core.Action.Exec)) + 0 * 1 || true
 //@   ensures[C04] consumes: stride != nil && (st.NodeName in s.Nodes) && nodeOf(s, st).Action == nil && msgBranching(nodeOf(s, st)) ==> stride.Consumed == pending
 //@   ensures[C04] keeps: stride != nil && (st.NodeName in s.Nodes) && !msgBranching(nodeOf(s, st)) ==> stride.Consumed == nil
-//@   ensures[C05] consumed: stride != nil && stride.Consumed != nil ==> stride.Consumed == pending
-//@   ensures[C05] from: stride != nil ==> fresh(stride.From) && stride.From.NodeName == old(st.NodeName) && fresh(stride.From.Bs)
-//@   ensures[C06] tofresh: stride != nil && stride.To != nil ==> fresh(stride.To) && stride.To.Bs != nil && fresh(stride.To.Bs)
+//@   ensures consumed: stride != nil && stride.Consumed != nil ==> stride.Consumed == pending
+//@   ensures from: stride != nil ==> fresh(stride.From) && stride.From.NodeName == old(st.NodeName) && fresh(stride.From.Bs)
+//@   ensures tofresh: stride != nil && stride.To != nil ==> fresh(stride.To) && stride.To.Bs != nil && fresh(stride.To.Bs)
 //@   ensures[C18;profile=pure] perm: stride != nil && stride.To != nil &&
 //@                      (nodeOf(s, st).Action != nil && firstret(core.Action.Exec, err) == nil ==> atcall(core.Action.Exec, firstret(core.Action.Exec, exe).Bs != nil))
 //@                      ==> permKept(st.Bs, stride.To.Bs)
@@ -167,6 +168,7 @@ package core
 //@   requires c != nil ==> forall id string :: (id in c.Breakpoints) ==> c.Breakpoints[id] != nil
 //@   modifies[C06,C12;profile=pure] nothing
 //@   modifies[;profile=any] st.Bs
-//@   ensures[C07] total: err == nil && walked != nil
+//@   ensures total: err == nil && walked != nil
 //@   loop 0 invariant st != nil && c != nil
+//@   loop 0 invariant (st == old(st) && st.Bs == old(st.Bs)) || (fresh(st) && fresh(st.Bs))
 //@   loop 0 invariant fresh(walked) && (cap(walked.Strides) == 0 || fresh(walked.Strides))
